@@ -1,5 +1,6 @@
 pub fn lcm(iter: impl Iterator<Item = usize>) -> usize {
-    iter.fold(1, |acc, x| acc * x / gcd(acc, x))
+    // divide first: the product of two large alignments need not fit in a usize
+    iter.fold(1, |acc, x| acc / gcd(acc, x) * x)
 }
 
 pub fn gcd(mut a: usize, mut b: usize) -> usize {
